@@ -1,6 +1,7 @@
 package main
 
 import (
+	"fmt"
 	"sort"
 
 	"github.com/pomerium/webauthn"
@@ -99,6 +100,24 @@ func init() {
 						kvs = append(kvs, other)
 					} else {
 						kvs = append([][2][]byte{other}, kvs...)
+					}
+				case 7: // many further members (in the object or in the statement)
+					dev = "many"
+					cnt := pick(r, []int{17, 33, 100, 300})
+					if r.Bool() {
+						for k := 0; k < cnt; k++ {
+							kvs = append(kvs, [2][]byte{cborText(fmt.Sprintf("member%d", k)), cborInt(int64(k))})
+						}
+					} else {
+						flat := [][]byte{}
+						for k := 0; k < cnt; k++ {
+							flat = append(flat, cborText(fmt.Sprintf("entry%d", k)), cborInt(int64(k)))
+						}
+						for i := range kvs {
+							if string(kvs[i][0]) == string(cborText("attStmt")) {
+								kvs[i][1] = cborMap(flat...)
+							}
+						}
 					}
 				case 6: // a member of another CBOR type
 					dev = "mistyped"
